@@ -10,7 +10,10 @@ REFUSAL = P.REFUSAL
 INTERNAL_ERROR = P.INTERNAL_ERROR
 ACT_TEXT = "question with an action"   # the only user text the 2.x dialog config routes to the action flow
 
-GEN_TASKS = {"general", "generate_bot_message", "generate_value_from_instruction", "generate_flow_continuation"}
+GEN_TASKS = {"general", "generate_bot_message", "generate_intent_steps_message", "generate_value_from_instruction", "generate_flow_continuation"}
+
+# Colang 1.0 generation modes (see harness/impl/pipeline.py): (gen, dialog rails allowed?)
+GEN_MODES = ["std", "pt", "ptp", "ptfn", "single"]
 
 IN_LISTS = [[], [0], [0, 1], [1, 0], [0, 1, 2], [2, 0, 1], [1, 1]]
 OUT_LISTS = [[], [0], [0, 1], [1, 0], [0, 1, 2], [1, 2, 0], [0, 0]]
@@ -90,8 +93,23 @@ def gen_cfg(rng, max_rails=3):
         outs = [l for l in OUT_LISTS if len(l) <= max_rails]
         c = {"ver": ver, "dialog": rng.random() < 0.5, "exc": rng.random() < 0.4, "in": list(rng.choice(ins)), "out": list(rng.choice(outs)),
              "carry": rng.choice(["messages", "state"]) if ver == "1.0" else "state"}
+        if ver == "1.0":
+            # how the user message reaches the LLM: rendered task prompts, passthrough (chat / completion / function), single call
+            c["gen"] = rng.choice(["std", "std", "std", "pt", "pt", "ptp", "ptfn", "single"])
+            c["front"] = rng.random() < 0.3
+            if c["gen"] == "single":
+                c["dialog"] = True
         if fits(ver, c["dialog"], len(c["in"]), len(c["out"])):
             return c
+
+
+def gen_variants(carries=("messages", "state")):
+    """Every Colang 1.0 generation mode x dialog rails x a system/context message in front x history carrying."""
+    for gen in GEN_MODES:
+        for dialog in ((True,) if gen == "single" else (False, True)):
+            for front in (False, True):
+                for carry in (("messages",) if gen == "ptp" else carries):
+                    yield {"ver": "1.0", "gen": gen, "dialog": dialog, "front": front, "carry": carry}
 
 
 def all_cfgs(rail_shapes, carries=("messages",)):
@@ -142,6 +160,7 @@ def model_requests(case, obs, method="C01.conv"):
         "m": method,
         "ver": case["ver"],
         "cfg": {"in": case["in"], "out": case["out"], "dialog": bool(case["dialog"]), "exc": bool(case["exc"]), "sc": bool(case.get("sc")),
+                "single_call": case["ver"] == "1.0" and case.get("gen") == "single",
                 "nostop_in": case.get("nostop_in", []), "nostop_out": case.get("nostop_out", [])},
         "turns": [{"user": t["user"], "bot": t["bot"], "intent": t.get("intent", "free"), "vin": t.get("vin", []), "vout": t.get("vout", []),
                    "act_fault": bool(t.get("act_fault")), "retr_fault": bool(t.get("retr_fault"))} for t in case["turns"]],
@@ -230,7 +249,7 @@ def reply_text(rep):
 
 def tags(case, obs):
     t = [f"ver:{case['ver']}", f"dialog:{int(bool(case['dialog']))}", f"exc:{int(bool(case['exc']))}", f"n_in:{len(eff_in(case))}", f"n_out:{len(eff_out(case))}", f"selfcheck:{int(bool(case.get('sc')))}",
-         f"turns:{len(case['turns'])}", f"carry:{case.get('carry')}"]
+         f"turns:{len(case['turns'])}", f"carry:{case.get('carry')}", f"gen:{case.get('gen', 'std') if case['ver'] == '1.0' else '2.x'}", f"front:{int(bool(case.get('front')))}"]
     for tc, to in zip(case["turns"], obs["turns"]):
         for kind in ("in", "out"):
             for s in rail_calls(to, kind):
@@ -286,8 +305,12 @@ def shrink(case):
         l = case[key]
         for i in range(len(l)):
             yield dict(case, **{key: l[:i] + l[i + 1:]})
-    if case["dialog"] and case["ver"] == "1.0":
+    if case.get("front"):
+        yield dict(case, front=False)
+    if case["dialog"] and case["ver"] == "1.0" and case.get("gen") != "single":
         yield dict(case, dialog=False)
+    if case["ver"] == "1.0" and case.get("gen", "std") not in ("std",):
+        yield dict(case, gen="std")
 
 
 # ------------------------------------------------------------------ regions of the recorded open findings
